@@ -40,6 +40,9 @@ type RWMutex struct{ m sync.RWMutex }
 
 func (m *RWMutex) Lock() {
 	if verifrt.Attached() {
+		// two steps, as in sync.RWMutex: the writer first announces itself (from then on new readers wait), then
+		// waits for the readers that are inside
+		verifrt.SyncOp(unsafe.Pointer(m), "wlock-announce")
 		verifrt.SyncOp(unsafe.Pointer(m), "lock")
 		return
 	}
